@@ -426,6 +426,12 @@ func (p *sparser) primary() SExpr {
 			p.p--
 			return p.spec()
 		}
+		// name#k: the k-th local variable of that name (source order)
+		if p.isOp("#") && p.p+1 < len(p.toks) && p.toks[p.p+1].k == "int" {
+			k := p.toks[p.p+1].s
+			p.p += 2
+			return &SIdent{t.s + "#" + k}
+		}
 		return &SIdent{t.s}
 	case "op":
 		if t.s == "(" {
@@ -466,6 +472,7 @@ type Contract struct {
 	Requires []*Clause
 	Ensures  []*Clause
 	Invs     []*Clause
+	Exits    []*Clause // checked at every return like ensures, may mention local variables, not visible to callers
 	Modifies []string // raw location expressions; "nothing"
 	HasMod   bool
 	Opts     map[string]string
@@ -672,7 +679,7 @@ func (sf *SpecFile) load(path string) error {
 				sf.Contracts[name] = cur
 				sf.Order = append(sf.Order, name)
 			}
-		case "requires", "ensures", "invariant", "loop", "assert", "assume", "after", "before":
+		case "requires", "ensures", "exit", "invariant", "loop", "assert", "assume", "after", "before":
 			if cur == nil {
 				return fail(fmt.Errorf("clause outside func"))
 			}
@@ -734,6 +741,8 @@ func (sf *SpecFile) load(path string) error {
 				cur.Requires = append(cur.Requires, cl)
 			case "ensures":
 				cur.Ensures = append(cur.Ensures, cl)
+			case "exit":
+				cur.Exits = append(cur.Exits, cl)
 			case "invariant":
 				cur.Invs = append(cur.Invs, cl)
 			default:
@@ -908,7 +917,7 @@ func (c *Contract) hasProp(p string) bool {
 			return true
 		}
 	}
-	for _, l := range [][]*Clause{c.Requires, c.Ensures, c.Invs, c.Asserts} {
+	for _, l := range [][]*Clause{c.Requires, c.Ensures, c.Invs, c.Asserts, c.Exits} {
 		for _, cl := range l {
 			for _, q := range cl.Props {
 				if q == p {
